@@ -1352,4 +1352,168 @@ theorem outcomesAfterG_getElem? (before hs : List Header) (j : Nat) :
       | false => simp [ih, loadable, hg]
       | true => simp [ih, loadable, hg]
 
+/-! ### texts with several top-level statements (`Modules.Parse` is atomic) -/
+
+theorem addText_nil (r : Registry) : r.addText [] = .ok r := rfl
+
+theorem addText_cons (r : Registry) (s : Stmt) (rest : List Stmt) :
+    r.addText (s :: rest) = match r.add s with | .ok r' => r'.addText rest | .error e => .error e := by
+  unfold Registry.addText
+  rw [List.foldlM_cons]
+  cases r.add s <;> rfl
+
+/-- One statement per text is the statement-wise load. -/
+theorem loadTextsFrom_singletons : ∀ (ss : List Stmt) (r : Registry),
+    r.loadTextsFrom (ss.map fun s => [s]) = r.loadFrom ss
+  | [], _ => rfl
+  | s :: rest, r => by
+    simp only [List.map_cons, Registry.loadTextsFrom, Registry.loadFrom, addText_cons, addText_nil]
+    cases r.add s with
+    | ok r' => simp only [loadTextsFrom_singletons rest r']
+    | error e => simp only [loadTextsFrom_singletons rest r]
+
+/-- A text is accepted exactly when none of its statements would be refused when added one after
+the other; the registry is then the one those adds produce. -/
+theorem addText_ok_iff : ∀ (ss : List Stmt) (r r' : Registry),
+    r.addText ss = .ok r' ↔ ((r.loadFrom ss).2.all Option.isNone = true ∧ r' = (r.loadFrom ss).1)
+  | [], r, r' => by simp [addText_nil, Registry.loadFrom, eq_comm]
+  | s :: rest, r, r' => by
+    rw [addText_cons]
+    unfold Registry.loadFrom
+    cases r.add s with
+    | ok r1 => simpa using addText_ok_iff rest r1 r'
+    | error e => simp
+
+theorem outcomesAfterG_all_ok (before hs : List Header) :
+    (outcomesAfterG before hs).all (· == .ok) = true ↔
+      (∀ h ∈ hs, nameOk h = true) ∧ hs.Nodup ∧ ∀ h ∈ hs, h ∉ before := by
+  induction hs generalizing before with
+  | nil => simp [outcomesAfterG]
+  | cons g rest ih =>
+    unfold outcomesAfterG
+    cases hg : nameOk g with
+    | false => simp [hg]
+    | true =>
+      simp only [if_true, List.all_cons, Bool.and_eq_true, ih, List.mem_cons, forall_eq_or_imp, hg, true_and,
+        List.nodup_cons, List.mem_append, List.mem_singleton, not_or]
+      by_cases hb : g ∈ before
+      · simp [hb]
+      · have hc : before.contains g = false := by simpa using hb
+        simp only [hc, Bool.false_eq_true, if_false]
+        constructor
+        · rintro ⟨_, h1, h2, h3⟩
+          exact ⟨h1, ⟨fun hm => (h3 g hm).2.1 rfl, h2⟩, hb, fun h hh => (h3 h hh).1⟩
+        · rintro ⟨h1, ⟨h2, h3⟩, _, h4⟩
+          exact ⟨rfl, h1, h3, fun h hh => ⟨h4 h hh, fun e => h2 (e ▸ hh), by simp⟩⟩
+
+/-- **One text.**  Into a registry that holds the loads `L`, a text is accepted exactly when every
+name in it is free of `@`, no two of its statements have the same header, and none has the header
+of a load already there; the invariant then goes on with the text's statements appended. -/
+theorem addText_spec {r : Registry} {L : List Stmt} (inv : Inv r L) (hL : ∀ t ∈ L, NoAt t.arg) (ss : List Stmt) :
+    match r.addText ss with
+    | .ok r' => ((∀ s ∈ ss, NoAt s.arg) ∧ (ss.map hdr).Nodup ∧ ∀ s ∈ ss, hdr s ∉ L.map hdr) ∧ Inv r' (L ++ ss)
+    | .error _ => ¬ ((∀ s ∈ ss, NoAt s.arg) ∧ (ss.map hdr).Nodup ∧ ∀ s ∈ ss, hdr s ∉ L.map hdr) := by
+  obtain ⟨inv', hout⟩ := loadFrom_specG ss inv hL
+  have hall : (r.loadFrom ss).2.all Option.isNone = true ↔
+      ((∀ s ∈ ss, NoAt s.arg) ∧ (ss.map hdr).Nodup ∧ ∀ s ∈ ss, hdr s ∉ L.map hdr) := by
+    have h1 : (r.loadFrom ss).2.all Option.isNone = ((r.loadFrom ss).2.map toOutcome).all (· == .ok) := by
+      rw [List.all_map]
+      apply all_congr_mem
+      intro o _
+      rcases o with _ | ⟨_ | _⟩ <;> rfl
+    rw [h1, hout, outcomesAfterG_all_ok]
+    simp only [List.mem_map, forall_exists_index, and_imp, forall_apply_eq_imp_iff₂]
+    constructor
+    · rintro ⟨h1, h2, h3⟩
+      exact ⟨fun s hs => noAt_of_good (h1 s hs), h2, h3⟩
+    · rintro ⟨h1, h2, h3⟩
+      exact ⟨fun s hs => good_of_noAt (h1 s hs), h2, h3⟩
+  cases hadd : r.addText ss with
+  | ok r' =>
+    obtain ⟨ha, rfl⟩ := (addText_ok_iff ss r r').mp hadd
+    have hc := hall.mp ha
+    refine ⟨hc, ?_⟩
+    have : ss.filter good = ss := List.filter_eq_self.mpr fun s hs => good_of_noAt (hc.1 s hs)
+    rw [this] at inv'
+    exact inv'
+  | error e =>
+    intro hc
+    have := (addText_ok_iff ss r (r.loadFrom ss).1).mpr ⟨hall.mpr hc, rfl⟩
+    rw [hadd] at this; cases this
+
+/-- The texts that were accepted, in order. -/
+def acceptedTexts (r : Registry) : List (List Stmt) → List (List Stmt)
+  | [] => []
+  | t :: rest =>
+    match r.addText t with
+    | .ok r' => t :: acceptedTexts r' rest
+    | .error _ => acceptedTexts r rest
+
+/-- **All texts.**  The invariant after loading texts: the registry has seen exactly the statements
+of the accepted texts, all with `@`-free names and pairwise different headers. -/
+theorem loadTextsFrom_spec : ∀ (ts : List (List Stmt)) {r : Registry} {L : List Stmt}, Inv r L →
+    (∀ t ∈ L, NoAt t.arg) → (L.map hdr).Nodup →
+    Inv (r.loadTextsFrom ts).1 (L ++ (acceptedTexts r ts).flatten) ∧
+    (∀ t ∈ L ++ (acceptedTexts r ts).flatten, NoAt t.arg) ∧
+    ((L ++ (acceptedTexts r ts).flatten).map hdr).Nodup
+  | [], r, L, inv, hL, hnd => by simpa [Registry.loadTextsFrom, acceptedTexts] using ⟨inv, hL, hnd⟩
+  | t :: rest, r, L, inv, hL, hnd => by
+    have step := addText_spec inv hL t
+    unfold Registry.loadTextsFrom acceptedTexts
+    cases hadd : r.addText t with
+    | ok r' =>
+      rw [hadd] at step
+      obtain ⟨⟨h1, h2, h3⟩, inv'⟩ := step
+      have hL' : ∀ x ∈ L ++ t, NoAt x.arg := by
+        intro x hx
+        rcases List.mem_append.mp hx with hx | hx
+        · exact hL x hx
+        · exact h1 x hx
+      have hnd' : ((L ++ t).map hdr).Nodup := by
+        rw [List.map_append, List.nodup_append]
+        refine ⟨hnd, h2, ?_⟩
+        intro a ha b hb hab
+        obtain ⟨s, hs, rfl⟩ := List.mem_map.mp hb
+        exact h3 s hs (hab ▸ ha)
+      have ih := loadTextsFrom_spec rest inv' hL' hnd'
+      simpa [List.append_assoc] using ih
+    | error e =>
+      simpa using loadTextsFrom_spec rest inv hL hnd
+
+/-- After the accepted texts, the registry is the one that loading their statements one by one
+produces — and none of those loads is refused — so everything proved about `loadAll` applies. -/
+theorem loadTextsFrom_eq_loadFrom : ∀ (ts : List (List Stmt)) (r : Registry),
+    (r.loadTextsFrom ts).1 = (r.loadFrom (acceptedTexts r ts).flatten).1 ∧
+    (r.loadFrom (acceptedTexts r ts).flatten).2.all Option.isNone = true
+  | [], r => by simp [Registry.loadTextsFrom, acceptedTexts, Registry.loadFrom]
+  | t :: rest, r => by
+    unfold Registry.loadTextsFrom acceptedTexts
+    cases hadd : r.addText t with
+    | ok r' =>
+      obtain ⟨ha, rfl⟩ := (addText_ok_iff t r r').mp hadd
+      obtain ⟨ih1, ih2⟩ := loadTextsFrom_eq_loadFrom rest (r.loadFrom t).1
+      simp only [List.flatten_cons]
+      refine ⟨?_, ?_⟩
+      · rw [ih1]
+        exact (loadFrom_append_fst r t _).symm
+      · rw [loadFrom_append_snd, List.all_append, ha, ih2]; rfl
+    | error e => exact loadTextsFrom_eq_loadFrom rest r
+where
+  loadFrom_append_fst (r : Registry) : ∀ (a b : List Stmt),
+      (r.loadFrom (a ++ b)).1 = ((r.loadFrom a).1.loadFrom b).1
+    | [], _ => rfl
+    | s :: rest, b => by
+      simp only [List.cons_append, Registry.loadFrom]
+      cases r.add s with
+      | ok r' => exact loadFrom_append_fst r' rest b
+      | error e => exact loadFrom_append_fst r rest b
+  loadFrom_append_snd (r : Registry) : ∀ (a b : List Stmt),
+      (r.loadFrom (a ++ b)).2 = (r.loadFrom a).2 ++ ((r.loadFrom a).1.loadFrom b).2
+    | [], _ => rfl
+    | s :: rest, b => by
+      simp only [List.cons_append, Registry.loadFrom]
+      cases r.add s with
+      | ok r' => simp [loadFrom_append_snd r' rest b]
+      | error e => simp [loadFrom_append_snd r rest b]
+
 end Goyang.Lemmas.Registry
